@@ -33,6 +33,7 @@ func genC12(seed uint64, tier string) *Plan {
 	p.Cfg.Flusher = true
 	p.Cfg.Burst = uint64(32 + r.Intn(481))
 	p.Cfg.SyncMs = []int{10, 30, 100, 300, 1000}[r.Intn(5)]
+	p.Cfg.SyncOnFlush = r.Chance(0.2)
 	nk := 2 + r.Intn(6)
 	p.Keys = GenKeys(r, nk, false)
 	nw := 1
